@@ -627,6 +627,70 @@ def asden(eng, d):
 
 
 @spec
+def keys_ancbelow(eng, d, n):
+    """no stored key of d mentions a constraint-ancilla name '__a<j>' with j >= n (numbers, None: vacuously true)"""
+    from .values import is_num
+    if d is None or is_num(d) or isinstance(d, bool):
+        return True
+    if isinstance(d, SV) and d.t in ("real", "int"):
+        return True
+    ver = eng.store_of(d)
+    if ver.ksort != T.Key:
+        raise Unsupported("keys_ancbelow on a dict that is not keyed by keys")
+    nn = zint(n)
+    gts = eng.__dict__.setdefault("gn_terms", [])
+    if not any(nn.eq(t) for t in gts):
+        gts.append(nn)
+    return SV(FO.fold(eng, ver, FO.ancbelow_fold(eng, nn)), "bool")
+
+
+@spec
+def keyanc(eng, k):
+    """1 + the largest ancilla number among the labels of the key (0 if it has no ancilla label)"""
+    eng.facts.enable_anc()
+    return SV(T.KEYANC(eng.facts.key(eng.as_key(k))), "int")
+
+
+@spec
+def ops_ancbelow(eng, vs, n):
+    """operands of a gate / builder (labels, raw dicts, models, or a symbolic tuple of labels): none mentions an
+    ancilla name '__a<j>' with j >= n"""
+    eng.facts.enable_anc()
+    nn = zint(n)
+    if isinstance(vs, SV) and vs.t == "key":
+        keys_ancbelow(eng, None, n)
+        return SV(T.KEYANC(eng.facts.key(vs.e)) <= nn, "bool")
+    parts = []
+    for v in vs:
+        if isinstance(v, (PObj, DictVal)) or isinstance(v, dict):
+            if isinstance(v, dict) and not v:
+                continue
+            parts.append(_b(eng, keys_ancbelow(eng, v, n)))
+        else:
+            l = eng.as_label(v)
+            eng.facts.label(l)
+            parts.append(eng.facts._lanc(l) <= nn)
+    gts = eng.__dict__.setdefault("gn_terms", [])
+    if not any(nn.eq(t) for t in gts):
+        gts.append(nn)
+    return SV(z3.And(*parts) if parts else z3.BoolVal(True), "bool")
+
+
+@spec
+def gn(eng):
+    """ghost bound: an arbitrary integer, fixed for the function under verification. Ensures that mention it are
+    proved for every value of it, and are therefore assumed at call sites for every bound the caller has in play."""
+    ov = getattr(eng, "gn_override", None)
+    if ov is not None:
+        return SV(ov, "int")
+    g = getattr(eng, "_gn_const", None)
+    if g is None:
+        g = eng._gn_const = z3.Int("GN!ghost")
+        eng.facts.add(g >= 0)                  # a bound on ancilla numbers: arbitrary, but not negative
+    return SV(g, "int")
+
+
+@spec
 def int_at_origin(eng, d, spin=False):
     """the model takes an integer value at the origin (all boolean variables 0 / all spins +1): for a boolean
     model that is its constant term.  An integer-valued polynomial (the property's premise) has this in particular;
